@@ -208,6 +208,16 @@ pub fn api(seed: u64) -> Program {
             match g.rng.below(20) {
                 0..=6 => {
                     let a = g.plain_act(&reds, 10);
+                    // sometimes the reducer answers with a follow-up action or a thunk that dispatches
+                    if !reds.is_empty() && g.rng.chance(20) {
+                        let id = g.new_eff();
+                        let kind = if g.rng.chance(60) {
+                            EffKind::Action(g.plain_act(&reds, 0))
+                        } else {
+                            EffKind::Thunk(vec![g.plain_act(&reds, 0)])
+                        };
+                        g.acts.get_mut(&a).unwrap().red.entry(reds[0]).or_default().eff = Some(EffSpec { id, kind, panic: false, gate: None, sleep_ms: 0 });
+                    }
                     let via = g.via();
                     ops.push(Op::Dispatch { store: 0, act: a, via });
                 }
